@@ -15,7 +15,7 @@ func controlsC18() []Control {
 		{Name: "bot checks in the call arm", Expect: "R1", Mutate: replaceIn("(*botRunner).requestAI", "\t\terr := br.actions.Call()\n", "\t\terr := br.actions.Check()\n", 0)},
 		{Name: "Actions.Bet forwards to Raise", Expect: "R5", Mutate: replaceIn("(*actions).Bet", "a.actor.GetTable().Bet(a.playerID, chips)", "a.actor.GetTable().Raise(a.playerID, chips)", 0)},
 		{Name: "engine adapter folds on check", Expect: "R5", Mutate: replaceIn("(*tableEngineAdapter).Check", "tea.engine.PlayerCheck(playerID)", "tea.engine.PlayerFold(playerID)", 0)},
-		{Name: "bot acts on stale views", Expect: "R6", Mutate: replaceIn("(*botRunner).UpdateTableState", "} else if br.lastGameStateTime >= gs.UpdatedAt {", "} else if br.lastGameStateTime > gs.UpdatedAt+1000000 {", 0)},
+		{Name: "bot acts on stale views", Expect: "R6", Mutate: replaceIn("(*botRunner).UpdateTableState", "\t\tif br.lastGameStateTime >= gs.UpdatedAt {", "\t\tif br.lastGameStateTime > gs.UpdatedAt+1000000 {", 0)},
 		{Name: "bot acts while the table is not playing", Expect: "R6", Mutate: replaceIn("(*botRunner).UpdateTableState", "if table.State.Status != pokertable.TableStateStatus_TableGamePlaying {\n\t\treturn nil\n\t}", "", 0)},
 		{Name: "bot stays silent when asked", Expect: "R3", Mutate: replaceIn("(*botRunner).requestAI", "\tcase \"check\":\n\t\terr := br.actions.Check()\n\t\tif err != nil {\n\t\t\treturn err\n\t\t}\n", "\tcase \"check\":\n\t\tvar err error\n\t\tif err != nil {\n\t\t\treturn err\n\t\t}\n", 0)},
 		{Name: "bot pays the ante amount for a blind", Expect: "R4", Mutate: replaceIn("(*botRunner).requestMove", "return br.actions.Pay(gs.Meta.Blind.BB)", "return br.actions.Pay(gs.Meta.Ante)", 0)},
